@@ -217,7 +217,10 @@ func c06MustUTF8(what, s string) {
 
 var c06TmpDir string
 
-func c06NewValidator(cfg *c06Cfg, id int) (*Validator, error) {
+func c06NewValidator(cfg *c06Cfg, id int) (*Validator, error) { return c06NewGeneration(cfg, id, nil) }
+
+// c06NewGeneration: prev != nil builds the next generation as the pipeline does (Inherit; the caller closes prev)
+func c06NewGeneration(cfg *c06Cfg, id int, prev *Validator) (*Validator, error) {
 	raw := map[string]interface{}{"kind": Kind, "name": "c06"}
 	if cfg.Headers != nil {
 		m := map[string]interface{}{}
@@ -272,7 +275,11 @@ func c06NewValidator(cfg *c06Cfg, id int) (*Validator, error) {
 		return nil, err
 	}
 	v := &Validator{spec: spec.(*Spec)}
-	v.Init()
+	if prev != nil {
+		v.Inherit(prev)
+	} else {
+		v.Init()
+	}
 	return v, nil
 }
 
